@@ -295,4 +295,9 @@ def copy_origin(from_node, to_node):
     to_node = (to_node,)
   for node in to_node:
     for n in ast.walk(node):
+      if isinstance(n, (ast.expr_context, ast.operator, ast.unaryop, ast.cmpop,
+                        ast.boolop)):
+        # These are singletons that the Python parser shares between all the
+        # trees it creates. Annotating them would leak into unrelated trees.
+        continue
       anno.setanno(n, anno.Basic.ORIGIN, origin)
